@@ -177,4 +177,9 @@ int __wrap_pthread_key_create(pthread_key_t *k, void (*d)(void *)) { if (HOOKED(
 int __real_pthread_atfork(void (*)(void), void (*)(void), void (*)(void));
 /* fork handlers are appended to a process-wide list and never removed: registering them is reported as what = 4 */
 int __wrap_pthread_atfork(void (*a)(void), void (*b)(void), void (*c)(void)) { if (HOOKED(process_state_)) simos_hooks.process_state_(4, 0, 1); return __real_pthread_atfork(a, b, c); }
+#include <signal.h>
+int __real_pthread_sigmask(int, const sigset_t *, sigset_t *);
+int __real_sigprocmask(int, const sigset_t *, sigset_t *);
+int __wrap_pthread_sigmask(int how, const sigset_t *set, sigset_t *old) { if (HOOKED(sigmask_)) simos_hooks.sigmask_(set, old, sizeof(sigset_t)); return __real_pthread_sigmask(how, set, old); }
+int __wrap_sigprocmask(int how, const sigset_t *set, sigset_t *old) { if (HOOKED(sigmask_)) simos_hooks.sigmask_(set, old, sizeof(sigset_t)); return __real_sigprocmask(how, set, old); }
 mode_t __wrap_umask(mode_t m) { if (HOOKED(process_state_)) simos_hooks.process_state_(2, 0, 1); return __real_umask(m); }
